@@ -91,6 +91,7 @@ func verifCloseCBC09(c *connection) CloseCallback {
 //verif:loop 40
 //verif:poloop 3
 //verif:potimeout 400
+//verif:also C19
 func verifHarness_C09_order(sc int) {
 	var c *connection
 	switch sc {
